@@ -83,7 +83,7 @@ def case_strategy():
         st.tuples(st.integers(-3, 3), st.text(max_size=3)).map(lambda t: {"k": "pickle", "v": enc(t)}),
     )
     op = st.sampled_from(["keep", "rekeep", "load", "reopen", "legacy", "keep_both", "keep", "new_view", "faulty_keep", "same_once", "same_twice",
-                          "rekeep_live", "revert_live", "rekeep_live", "revert_live", "legacy_min", "probe_other", "torn_meta"])
+                          "rekeep_live", "revert_live", "rekeep_live", "revert_live", "legacy_min", "probe_other", "torn_meta", "switch_commit"])
 
     @st.composite
     def gen(draw):
@@ -91,11 +91,12 @@ def case_strategy():
         kind = draw(st.sampled_from(["str", "bytes", "pickle"]))
         vals = [draw(val.filter(lambda v: v["k"] == kind)) for _ in range(3)]
         # distinct values so that a stale copy is visible
+        empty_first = draw(st.integers(0, 3)) == 0   # the first version may be the empty string / empty bytes
         for i, v in enumerate(vals):
             if v["k"] == "str":
-                v["v"] = v["v"] + str(i)
+                v["v"] = "" if (i == 0 and empty_first) else v["v"] + str(i)
             elif v["k"] == "bytes":
-                v["v"] = enc(dec(v["v"]) + bytes([i]))
+                v["v"] = enc(b"" if (i == 0 and empty_first) else dec(v["v"]) + bytes([i]))
             else:
                 v["v"] = enc((i, dec(v["v"])))
         return {"commit": ct, "spelling": draw(st.sampled_from(SPELLINGS[ct])), "values": vals,
@@ -177,11 +178,12 @@ def check_case(case, ev=None, scratch=None):
                 w.close()
             w = proc.Worker()
             w.call("init", root=root, accepted=["pk"], store=None)
-            err = w.call("call", module="vf.props.c19", func="_open", args=[case, store_dir, values, "dbfs:/" + view[0]])
+            err = w.call("call", module="vf.props.c19", func="_open", args=[dict(case, spelling=cur["spelling"]), store_dir, values, "dbfs:/" + view[0]])
             if err:
-                raise Violation(f"{what}: set_store('dbfs', commit_type={case['spelling']!r}) failed: {err}", case)
+                raise Violation(f"{what}: set_store('dbfs', commit_type={cur['spelling']!r}) failed: {err}", case)
 
         view = ["data"]
+        cur = {"commit": case["commit"], "spelling": case["spelling"]}
         start()
         committed = {}     # path -> (key, value) per the model (what the last keep of the path returned)
         dbroot = os.path.join(store_dir, "dbfsroot")
@@ -191,7 +193,7 @@ def check_case(case, ev=None, scratch=None):
         def check_tree(when):
             data = tree(os.path.join(dbroot, view[0]))
             blobs = tree(os.path.join(dbroot, "internal", "blobs"))
-            ct = case["commit"]
+            ct = cur["commit"]
             if ct == "none":
                 if data:
                     raise Violation(f"{what}: {when}: commit type 'none' wrote under the data directory: {sorted(data)}", case)
@@ -234,7 +236,7 @@ def check_case(case, ev=None, scratch=None):
         def do_load(when):
             for path, (key, val) in sorted(committed.items()):
                 r = w.call("load", path=path)
-                if case["commit"] == "none":
+                if cur["commit"] == "none":
                     if r["exc"] is None and not same(r["value"], val):
                         raise Violation(f"{what}: {when}: load({path}) returned {short(r['value'])} although nothing is committed", case)
                     continue
@@ -280,7 +282,7 @@ def check_case(case, ev=None, scratch=None):
                 w2 = proc.Worker()
                 try:
                     w2.call("init", root=root, accepted=["pk"], store=None)
-                    err = w2.call("call", module="vf.props.c19", func="_open", args=[case, store_dir, values, "dbfs:/" + view[0]])
+                    err = w2.call("call", module="vf.props.c19", func="_open", args=[dict(case, spelling=cur["spelling"]), store_dir, values, "dbfs:/" + view[0]])
                     if err:
                         raise Violation(f"{what}: {when}: second process: set_store failed: {err}", case)
                     r = w2.call("eval", module="pk.m0", func="f", style="eval", opts={"dds_stages": ["analysis"], "dds_extra_debug": True})
@@ -289,7 +291,7 @@ def check_case(case, ev=None, scratch=None):
                     start()
                     do_keep("f", ["/out/v"], when)
                     stats["rekeep"] += 1
-                    if case["commit"] != "none":
+                    if cur["commit"] != "none":
                         r = w2.call("load", path="/out/v")
                         if r["exc"] is not None or not same(r["value"], values[ver]):
                             raise Violation(f"{what}: {when}: the second process (which had analysed the code before the result existed) loads "
@@ -299,6 +301,23 @@ def check_case(case, ev=None, scratch=None):
                         raise Violation(f"{what}: {when}: keep in the second process gave {r['exc'] or short(r['value'])}, expected {short(values[ver])}", case)
                 finally:
                     w2.close()
+            elif op == "switch_commit":
+                # the same process configures the store again on the same dbutils object and internal directory with ANOTHER commit
+                # type (on a new data directory: nothing is committed there yet)
+                order = ["full", "links_only", "none"]
+                was = cur["commit"]
+                cur["commit"] = order[(order.index(cur["commit"]) + 1 + si % 2) % 3]
+                cur["spelling"] = cur["commit"]
+                if was != "none":
+                    # (after 'none' the data directory is still empty and is kept: same dbutils, same two directories)
+                    view[0] = "data%d" % (si + 2)
+                committed.clear()
+                err = w.call("call", module="vf.props.c19", func="_open", args=[dict(case, spelling=cur["spelling"]), store_dir, values, "dbfs:/" + view[0]])
+                if err:
+                    raise Violation(f"{what}: {when}: set_store('dbfs', commit_type={cur['spelling']!r}) failed: {err}", case)
+                do_keep("f", ["/out/v"], when + f" (commit type now {cur['commit']})")
+                do_load(when)
+                stats["rekeep"] += 1
             elif op == "torn_meta":
                 # the metadata of the blob of /out/v is cut to nothing (a writer died in the middle of it): the next keep repairs the blob
                 if "/out/v" not in committed:
@@ -333,7 +352,7 @@ def check_case(case, ev=None, scratch=None):
                 start()
                 w.call("call", module="vf.props.c19", func="_fail_next_cp", args=["dbfs:/" + view[0]])
                 r = w.call("eval", module="pk.m0", func="f", style="direct")
-                if r["exc"] is None and case["commit"] == "full":
+                if r["exc"] is None and cur["commit"] == "full":
                     raise Violation(f"{what}: {when}: the copy into the data directory failed but keep reported success", case)
                 w.call("call", module="vf.props.c19", func="_fail_next_cp", args=["<never>"])
                 do_keep("f", ["/out/v"], when + " (retry after a failed copy)")
